@@ -54,11 +54,16 @@ def _gen_seed(ctx, sd):
     open(cfg, "w").write(src.replace("Seed = 0", "Seed = %d" % sd))
     return tlc.run("GenEncConfig", cfg=cfg, workers=1, timeout=900)
 
-def build_jobs(ctx, plans, want):
+def build_jobs(ctx, plans, want, first_full=None):
+    """All input classes for the first `first_full` plans (default: all), a rotating half of them for the rest."""
     jobs = []
+    asan_max = 9000 if ctx.quick else 70000
     for pi, plan in enumerate(plans):
-        for ii, inp in enumerate(cases.inputs_for(plan, pi, ctx.tier, ctx.rng)):
-            big = inp["n"] > 9000 or int(plan["preset"]) >= 7 and plan["entry"] in ("easy", "easy_buffer", "stream_mt")
+        inputs = cases.inputs_for(plan, pi, ctx.tier, ctx.rng)
+        if first_full is not None and pi >= first_full:
+            inputs = [x for k, x in enumerate(inputs) if (k + pi) % 2 == 0]
+        for ii, inp in enumerate(inputs):
+            big = inp["n"] > asan_max or int(plan["preset"]) >= 7 and plan["entry"] in ("easy", "easy_buffer", "stream_mt")
             jobs.append(dict(idx=len(jobs), plan=plan, inp=inp, seed=ctx.rng.randrange(1 << 30),
                              variant="plain" if big else "asan", want=want, quick=ctx.quick))
     return jobs
@@ -69,10 +74,10 @@ def key_of(label, e, idx):
 
 def run(ctx):
     model_check(ctx)
-    plans = gen_plans(ctx, [0] if ctx.quick else [0] + [ctx.seed * 100 + k for k in range(1, 12)])
+    plans = gen_plans(ctx, [0] if ctx.quick else [0] + [ctx.seed * 100 + k for k in range(1, 11)])
     ctx.log("plans from TLC: %d" % len(plans))
     build.lib("asan"); build.lib("plain")
-    jobs = build_jobs(ctx, plans, {"lz", "bias"})
+    jobs = build_jobs(ctx, plans, {"lz", "bias"}, first_full=None if ctx.quick else 520)
     # big jobs first so that the pool is balanced
     order = sorted(range(len(jobs)), key=lambda k: -jobs[k]["inp"]["n"])
     t = time.time()
